@@ -49,7 +49,7 @@ fn stream_writer(rep: &mut Report, drv: &mut Driver, rng: &mut Rng, n: usize) ->
                 3 | 4 => {
                     let mut t = hostile(rng, 5);
                     // characters XML cannot contain at all: the writer must refuse, not write them
-                    if rng.chance(1, 12) { t.push_str(*rng.pick(&["\u{2}", "\u{b}", "\u{1f}", "\u{fffe}", "\u{ffff}"])); }
+                    if rng.chance(1, 10) { t.push_str(*rng.pick(&["\u{1}", "\u{2}", "\u{8}", "\u{b}", "\u{c}", "\u{e}", "\u{1f}", "\u{0}", "\u{fffe}", "\u{ffff}"])); }
                     if rng.chance(1, 2) { t = format!("{}  \n  {} \t\n", t, hostile(rng, 2)); }
                     toks.push(format!("T {t}"));
                     evs.push(("text".into(), ("".into(), vec![]), t));
@@ -393,6 +393,17 @@ pub fn run_c05(rep: &mut Report, tier: &str, seed: u64) -> Result<(), String> {
             "<svg xmlns=\"\"><rect wh=\"5\"/></svg>",
         ];
         if i < PAST.len() { doc = PAST[i].to_string(); st.tally("past-failure"); }
+        else if i % 16 == 7 {
+            // references in content that is copied as written (an embedded namespaced <svg>, a text-only element):
+            // predefined and character references, and - which the first pass must refuse, because an svgdx
+            // document loses its DOCTYPE - entities that only a DOCTYPE declares, in character data AND in
+            // attribute values; whatever the first pass lets through, the second must take
+            let r = *rng.pick(&["&amp;", "&#65;", "&#x10FFFF;", "&lt;", "&foo;", "&foo;", "&nbsp;"]);
+            let pre = if r == "&foo;" || r == "&nbsp;" || rng.chance(1, 3) { "<!DOCTYPE svg [<!ENTITY foo \"bar\"><!ENTITY nbsp \"&#160;\">]>\n" } else { "" };
+            let inner = match rng.below(3) { 0 => format!("<rect width=\"2\" height=\"2\" fill=\"{r}\"/>"), 1 => format!("<desc>{r}</desc>"), _ => format!("<g data-a=\"x{r}\"><title>{r} t</title></g>") };
+            doc = format!("{pre}<svg>\n  <rect wh=\"5\" text=\"hi\"/>\n  <svg xmlns=\"http://www.w3.org/2000/svg\" viewBox=\"0 0 3 3\">{inner}</svg>\n  <desc>{r}</desc>\n</svg>");
+            st.tally("references-in-copied-content");
+        }
         else if i % 8 == 3 {
             let ns = *rng.pick(&["http://www.w3.org/2000/svg", "http://example.com/x", ""]);
             doc = doc.replacen("<svg", &format!("<svg xmlns=\"{ns}\""), 1);
